@@ -88,6 +88,7 @@ const (
 	FTrailingSlash = "path_with_trailing_slash"
 	FQueryCard    = "query_repeated_or_optional"
 	FPartialConfig = "methods_without_path_config"
+	FSharedMethodNames = "method_names_shared_across_services"
 	FInt64Number  = "ann_int64_number"
 	FEnumValue    = "ann_enum_value"
 	FEnumNumber   = "ann_enum_number"
@@ -118,7 +119,7 @@ var SafeFeatures = []string{FBasePath, FPathVars, FQuery, FQueryOnBody, FHeaders
 	FEnum, FMap, FOneof, FOptional, FRepeated, FTimestamp, FBytes, FRules, FCustomError, FAllKinds, FMultiService, FNameShapes, FSharedPath, FSharedReq}
 
 // LateFeatures are drawn from the side stream.
-var LateFeatures = []string{FQueryCard, FPartialConfig}
+var LateFeatures = []string{FQueryCard, FPartialConfig, FSharedMethodNames}
 
 var AnnotationFeatures = []string{FInt64Number, FEnumValue, FEnumNumber, FNullable, FEmptyBehav, FTsFormat, FBytesEnc, FFlatten, FOneofDisc, FUnwrap}
 
@@ -535,8 +536,8 @@ func (x *g) service(name string, idx int) {
 		x.usedM = map[string]bool{}
 	}
 	usedM := x.usedM
-	if x.has(RSameMethodName) {
-		usedM = map[string]bool{}
+	if x.has(RSameMethodName) || x.has(FSharedMethodNames) {
+		usedM = map[string]bool{} // method names may repeat across the services of the file
 	}
 	x.usedHdrM = map[string]bool{}
 	for k := range usedHdr {
